@@ -405,33 +405,48 @@ theorem bufferSet_step {amb : List Nat} {s : State} {b : Nat} {x : Buf} {t : Tra
           have mk := sd.nfat rfl
           rw [slotsFrom_start (i' := p + k) (by intro h; omega)]
           exact slotsFrom_congr (fun j h1 _ => sd.high rfl j h1)
-    refine ⟨Delta.mk (slotsFrom x.data t.size p (min n (p + k) - p))
-      (if fatal then slotsFrom x.data t.size (p + k) (n - (p + k)) else []) cre ((p - n) + m) S sd.next ?_ crc
-      (nodup_mid nd).2 ?_ ?_ ?_ ?_ (by rw [x'toks]; exact set_nodup fatal nd old) ?_⟩
+    have ndp := List.nodup_append.mp nd
+    have ndq := List.nodup_append.mp ndp.1
+    -- the replaced elements are destroyed last (after the old tail, when the copy ended fatally)
+    refine ⟨Delta.mk [] ((if fatal then slotsFrom x.data t.size (p + k) (n - (p + k)) else []) ++
+        slotsFrom x.data t.size p (min n (p + k) - p)) cre ((p - n) + m) S sd.next ?_ crc
+      List.nodup_nil (fun t ht => by cases ht) ?_ ?_ ?_ (by rw [x'toks]; exact set_nodup fatal nd old) ?_⟩
     · rw [lg]; cases fatal <;> simp
-    · intro t ht; rw [xtoks]; simp only [List.mem_append]; exact Or.inl (Or.inr ht)
     · intro k hk
       have := hSl (by rw [sd.next] at small; omega) k hk
-      refine ⟨this.1, fun hg => this.2 ?_⟩
-      rw [xtoks]; simp only [List.mem_append]; exact Or.inl (Or.inr hg)
-    · cases fatal with
-      | true =>
-        simp only [if_true]
-        have h1 := List.nodup_append.mp nd
-        exact h1.2.1
-      | false => exact List.nodup_nil
-    · intro t ht
+      exact ⟨this.1, by simp⟩
+    · rw [List.nodup_append]
+      refine ⟨by cases fatal <;> simp [ndp.2.1], ndq.2.1, fun a ha c hc e => ?_⟩
+      subst e
       cases fatal with
       | true =>
-        simp only [if_true] at ht
-        left
-        refine ⟨by rw [xtoks]; simp only [List.mem_append]; exact Or.inr ht, fun hg => ?_⟩
-        have h1 := List.nodup_append.mp nd
-        exact h1.2.2 t (List.mem_append.mpr (Or.inr hg)) t ht rfl
-      | false => simp at ht
+        simp only [if_true] at ha
+        exact ndp.2.2 a (List.mem_append.mpr (Or.inr hc)) a ha rfl
+      | false => simp at ha
+    · intro t ht
+      left
+      refine ⟨?_, by simp⟩
+      rw [xtoks]
+      simp only [List.mem_append] at ht ⊢
+      rcases ht with h | h
+      · cases fatal with
+        | true => simp only [if_true] at h; exact Or.inr h
+        | false => simp at h
+      · exact Or.inl (Or.inr h)
     · intro t
+      have sm := set_mem (M := (p - n) + m) fatal nd old t
       rw [x'toks, xtoks]
-      exact set_mem fatal nd old t
+      rw [sm]
+      simp only [List.mem_append, List.not_mem_nil, not_false_eq_true, and_true, not_or]
+      constructor
+      · rintro ⟨(⟨h1, h2⟩ | h), h3⟩
+        · exact ⟨Or.inl h1, h3, h2⟩
+        · refine ⟨Or.inr h, h3, fun hg => ?_⟩
+          have := old t (by simp only [List.mem_append]; exact Or.inl (Or.inr hg))
+          omega
+      · rintro ⟨(h1 | h), h3, h2⟩
+        · exact ⟨Or.inl ⟨h1, h2⟩, h3⟩
+        · exact ⟨Or.inr h, h3⟩
   · rw [he]
     refine Or.inr ⟨?_, fr⟩
     have ufit : (n + m) * t.size ≤ x'.size := by
